@@ -307,8 +307,15 @@ Record tables (ts : list tdecl) (fs : list fdef) (st : symtab) : Prop := {
   t_tt : forall n, aget (st_type_templates st) n = option_map tt_val (find_type ts n);
   t_ct : forall c, aget (st_ctor_templates st) c = option_map (fun p => xs_args (snd p)) (find_xtor ts FData c);
   t_dt : forall c, aget (st_dtor_templates st) c = match find_xtor ts FCodata c with Some p => dt_val p | None => None end;
-  t_df : forall f, aget (st_defs st) f = option_map (fun d => (fdctx d, fdret d)) (find_def fs f)
+  t_df : forall f, aget (st_defs st) f = option_map (fun d => (fdctx d, fdret d)) (find_def fs f);
+  t_tt_list : st_type_templates st = map (fun td => (td_name td, tt_val td)) ts
 }.
+
+Lemma tt_list : forall ds, flat_map tt_of_decl ds = map (fun td => (td_name td, tt_val td)) (tdecls ds).
+Proof.
+  induction ds as [|[d|d|d] r IH]; simpl; try rewrite IH; try reflexivity;
+    unfold tt_val; simpl; rewrite map_map; reflexivity.
+Qed.
 
 Theorem build_symbol_table_spec : forall p st,
   build_symbol_table p = COk st ->
@@ -328,6 +335,7 @@ Proof.
     + rewrite b_ct0. apply aget_ct.
     + rewrite b_dt0. apply aget_dt.
     + rewrite b_df0. apply aget_df.
+    + rewrite b_tt0. apply tt_list.
   - split; [apply (b_types _ _ B)|]. split; [apply (b_ctors _ _ B)|]. split; [apply (b_dtors _ _ B)|].
     intros td Hin. eapply built_type_params_ok; [eassumption| |eassumption].
     match goal with Hc : check_type_params_go _ _ = COk ?u |- _ => destruct u; exact Hc end.
